@@ -4,5 +4,6 @@ CONSTANTS
   Mode = "nowiki"
   Depth = 0
   DeepAll = FALSE
+  FinRule = "fixpoint"
 INVARIANT GenInv
 CHECK_DEADLOCK FALSE
